@@ -286,3 +286,106 @@ def include_family(rep, n_cases, max_files, nproc=16):
     cov["distinct_nontrivial"] = cov.get("distinct_nontrivial", 0) + len(hashes)
     cov.setdefault("families", {})["c13-include"] = tot
     return tot
+
+
+# ------------------------------------------------------------------ histories within one process; includes on the first line
+
+def _compile_here(root_dir, main):
+    """outcome of compiling root_dir/main through parse_file and compile_file, and of parsing the substituted text"""
+    from bardic.compiler.parsing.core import parse
+    from bardic.compiler.parsing.io import parse_file
+    from bardic.compiler.compiler import BardCompiler
+    files = {}
+    for dp, _, fns in os.walk(root_dir):
+        for fn in fns:
+            if fn.endswith(".bard"):
+                full = os.path.join(dp, fn)
+                files[os.path.relpath(full, root_dir)] = open(full, encoding="utf-8").read()
+    exp = substitute(files, main, [])
+    def err_kind(e):
+        if isinstance(e, FileNotFoundError):
+            return "notFound"
+        if isinstance(e, ValueError) and "ircular" in str(e):
+            return "circular"
+        return type(e).__name__
+    def run(f):
+        try:
+            with quiet(), time_limit(10):
+                return ("ok", json.loads(json.dumps(f())))
+        except Timeout:
+            return ("raise", "timeout")
+        except Exception as e:  # noqa
+            return ("raise", err_kind(e))
+    if isinstance(exp, list):
+        want = run(lambda: parse("\n".join(exp)))
+    else:
+        want = ("raise", exp)
+    full = os.path.join(root_dir, main)
+    outp = os.path.join(root_dir, "_out.json")
+    def cf():
+        BardCompiler().compile_file(full, outp)
+        return json.load(open(outp))
+    return want, run(lambda: parse_file(full)), run(cf)
+
+
+HISTORIES = [
+    # name, list of (files to write / None to delete, main to compile)
+    ("the only @include stands on the first line",
+     [({"main.bard": "@include ch.bard\n:: Start\nHi\n+ [go] -> Ch\n", "ch.bard": ":: Ch\nChapter\n+ [back] -> Start\n"}, "main.bard")]),
+    ("first-line @include of a missing file",
+     [({"main.bard": "@include nope.bard\n:: Start\nHi\n"}, "main.bard")]),
+    ("first-line @include of the file itself",
+     [({"main.bard": "@include main.bard\n:: Start\nHi\n"}, "main.bard")]),
+    ("first-line @include, second include later in an included file",
+     [({"main.bard": "@include a.bard\n:: Start\nHi\n+ [go] -> A\n", "a.bard": ":: A\nA\n+ [go] -> B\n@include b.bard\n", "b.bard": ":: B\nB\n"}, "main.bard")]),
+    ("a missing include, then the file is added",
+     [({"main.bard": ":: Start\nHi\n+ [go] -> Ch\n@include ch.bard\n"}, "main.bard"),
+      ({"ch.bard": ":: Ch\nChapter\n"}, "main.bard")]),
+    ("a cycle, then the cycle is broken",
+     [({"main.bard": ":: Start\nHi\n+ [go] -> A\n@include a.bard\n", "a.bard": ":: A\nA\n@include b.bard\n", "b.bard": ":: B\nB\n@include a.bard\n"}, "main.bard"),
+      ({"b.bard": ":: B\nB\n"}, "main.bard")]),
+    ("a failing story, then another story sharing its files",
+     [({"main.bard": ":: Start\nHi\n@include a.bard\n", "a.bard": ":: A\nA\n@include missing.bard\n"}, "main.bard"),
+      ({"other.bard": ":: Start\nOther\n+ [go] -> C\n@include c.bard\n", "c.bard": ":: C\nC\n"}, "other.bard"),
+      ({"a.bard": ":: A\nA\n"}, "main.bard")]),
+    ("an included file is edited between two compilations",
+     [({"main.bard": ":: Start\nHi\n+ [go] -> A\n@include sub/a.bard\n", "sub/a.bard": ":: A\nfirst text\n@include b.bard\n", "sub/b.bard": ":: B\nb one\n"}, "main.bard"),
+      ({"sub/b.bard": ":: B\nb two\n+ [x] -> A\n"}, "main.bard"),
+      ({"sub/a.bard": ":: A\nsecond text\n"}, "main.bard")]),
+    ("a diamond after a failure",
+     [({"main.bard": ":: Start\nHi\n@include l.bard\n@include r.bard\n", "l.bard": ":: L\nl\n@include nope.bard\n", "r.bard": ":: R\nr\n"}, "main.bard"),
+      ({"l.bard": ":: L\nl\n"}, "main.bard")]),
+]
+
+
+def history_probes(rep, prop, only_edit=False):
+    """compilations made one after the other in ONE process, the files changing in between: each must be the compilation of
+    the text obtained by substituting the includes of the files as they are at that moment"""
+    n = 0
+    for name, steps in HISTORIES:
+        if only_edit and "edited" not in name:
+            continue
+        d = tempfile.mkdtemp(prefix="verif_hist_")
+        try:
+            for k, (files, main) in enumerate(steps):
+                for p_, text in files.items():
+                    full = os.path.join(d, p_)
+                    os.makedirs(os.path.dirname(full), exist_ok=True)
+                    with open(full, "w", encoding="utf-8") as f:
+                        f.write(text)
+                want, got1, got2 = _compile_here(d, main)
+                n += 1
+                for label, got in (("parse_file", got1), ("compile_file", got2)):
+                    if got != want:
+                        rep.violations.append({"cls": None, "family": "include-history", "what": f"history '{name}', compilation {k + 1} ({label} of {main}): "
+                                               f"got {str(got)[:100]} where compiling the substituted text gives {str(want)[:100]}",
+                                               "steps": [{"write": s_[0], "compile": s_[1]} for s_ in steps[:k + 1]]})
+                        break
+        finally:
+            shutil.rmtree(d, ignore_errors=True)
+    rep.coverage.setdefault("families", {})["include-history"] = {"compilations": n}
+    rep.coverage["evaluations"] = rep.coverage.get("evaluations", 0) + n
+
+
+def edit_recompile_probe(rep, prop):
+    history_probes(rep, prop, only_edit=True)
